@@ -135,6 +135,36 @@ func longNameCases(quickTier bool) ([]cases.ScanCase, []cases.ScanCase) {
 	return odd, plain
 }
 
+// escapeLookalikeCases: names that contain, as plain characters, what an escaper would have produced (a backslash
+// followed by u0026, by n, by a quote; an HTML entity; a percent escape) or what encoding/json escapes on its own
+// (& < > U+2028): as the name of the biggest blob (so that it is printed in a description) and as the symbol of a
+// reference group (so that it is a key of JSON v1 and part of a key and of a description in JSON v2).
+func escapeLookalikeCases() ([]cases.ScanCase, []cases.ScanCase) {
+	looks := []string{`R\u0026D`, `a\u003cb`, `x\u003ey`, `back\nslash-n`, `q\"uote`, `two\\slashes`, `amp&lt;entity`, `pct%5Cesc`, "ls\u2028ep" + "\u2028", `\u0041`, `&<>`, `end\`}
+	var odd, plain []cases.ScanCase
+	for i, raw := range looks {
+		name := raw
+		mk := func(fname, sym string) cases.ScanCase {
+			names := map[int][]byte{1: []byte(fname), 2: []byte("small")}
+			g := model.Graph{Blobs: []int{5000, 7},
+				Trees:   [][]model.Entry{{{K: "file", To: 1, N: 1, NL: len(names[1])}, {K: "file", To: 2, N: 2, NL: len(names[2])}}},
+				Commits: []model.Commit{{Tree: 1, Parents: []int{}}}, Tags: []model.Tag{{TK: "c", To: 1}}}
+			g.Normalize()
+			q := strings.NewReplacer(`\`, `\\`, `"`, `\"`).Replace(sym) // the way a subsection is quoted in a config file
+			return cases.ScanCase{G: g, Names: names, Style: "full",
+				Gitconfig: fmt.Sprintf("[refgroup \"%s\"]\n\tinclude = refs/heads\n", q),
+				Roots: []cases.RootSpec{{O: model.Oid{K: "c", I: 1}, Walk: true, IsRef: true, Name: "refs/heads/main", Kind: "plain"},
+					{O: model.Oid{K: "g", I: 1}, Walk: true, IsRef: true, Name: "refs/tags/v1", Kind: "plain"}}}
+		}
+		o, p := mk(name, name), mk("big", "plainsym")
+		o.ID = fmt.Sprintf("lookalike-%d", i+1)
+		p.ID = o.ID + "-plain"
+		odd = append(odd, o)
+		plain = append(plain, p)
+	}
+	return odd, plain
+}
+
 func keySet(m map[string]json.RawMessage) string {
 	ks := make([]string, 0, len(m))
 	for k := range m {
@@ -258,6 +288,9 @@ func checkC19(c *Ctx) {
 	lo, lp := longNameCases(quick(c))
 	odd = append(odd, lo...)
 	plain = append(plain, lp...)
+	eo, ep := escapeLookalikeCases()
+	odd = append(odd, eo...)
+	plain = append(plain, ep...)
 	ro := env.parallelCLI(odd, cliOpt{Formats: true, NoTrace: true}, 16)
 	rp := env.parallelCLI(plain, cliOpt{Formats: true, NoTrace: true}, 16)
 	var fcs []map[string]interface{}
